@@ -1087,7 +1087,12 @@ func (c *Case) genStruct(t *rapid.T, depth int, label string) *Node {
 			} else {
 				s = c.poolStruct(t)
 			}
-			switch rapid.IntRange(0, 4).Draw(t, fl+".form") {
+			switch rapid.IntRange(0, 5).Draw(t, fl+".form") {
+			case 5:
+				// pointer to a pointer to the struct, inlined and optional
+				inner := &Node{Kind: KPtr, T: reflect.PointerTo(s.T), Elem: s}
+				f.N = &Node{Kind: KPtr, T: reflect.PointerTo(inner.T), Elem: inner}
+				f.Inlined, f.Optional = true, true
 			case 0:
 				f.N = s
 			case 1:
